@@ -69,3 +69,67 @@ def check_download_selection(ctx, rule):
                 ok = got == "Ok(())" and not log
                 spec = "nothing is fetched, queued or recorded"
             ctx.check(ok, rule, ORE, "remote-insert[should_download=%d,%s]" % (should, st), "returns %s, effects %s; spec: %s" % (got, log, spec), b.sp)
+
+
+OSR = "engine::live::LiveActor::on_sync_report"
+
+
+def eval_sync_report(f, syncing, decode, news):
+    """the live actor's handler of a gossiped sync report: (result, log)"""
+    from . import feval as E, coll
+    log = []
+    C = coll.Collections(f)
+
+    def oracle(kind, name, payload, site):
+        if kind == "await":
+            if str(name) == "fut:has_news_for_us":
+                return {"none": E.Ok(E.NONE), "some": E.Ok(E.Some(E.Tok("n-authors"))), "err": E.Err(E.Tok("actor-error"))}[news]
+            return E.UNIT if str(name).startswith("fut:") else None
+        if kind != "call":
+            return None
+        t, args, it = payload
+        names = [it.tokname(a).strip("&*") for a in args]
+        if name == "is_syncing":
+            log.append(("is_syncing", names[1:]))
+            return E.Int(1 if syncing else 0)
+        if mir.callee_matches(t, r"heads::AuthorHeads::decode$"):
+            log.append(("decode", names))
+            return E.Ok(E.Tok("heads-of(%s)" % names[0])) if decode else E.Err(E.Tok("decode-error"))
+        if mir.callee_matches(t, r"actor::SyncHandle::has_news_for_us$"):
+            log.append(("has_news_for_us", names[1:]))
+            return E.Tok("fut:has_news_for_us")
+        if mir.callee_matches(t, r"engine::live::LiveActor::sync_with_peer$"):
+            log.append(("sync_with_peer", [names[1], names[2], E.describe(it.resolve(args[3]), f)]))
+            return E.UNIT
+        return C.handle(kind, name, payload, site)
+    rep = E.struct(f, "engine::live::SyncReport", namespace=E.Tok("report.namespace"), heads=E.Tok("report.heads"))
+    try:
+        ret, hp, evs = E.run_async(f, OSR, [E.href("this"), E.Tok("sender"), rep], {"this": E.Tok("actor")}, oracle)
+        return E.describe(ret, f), log
+    except E.Unsupported as e:
+        return "UNSUPPORTED-FORM: %s" % e, log
+
+
+def check_sync_report(ctx, rule):
+    """a head report leads to a request to its sender exactly when the store flags it as news for us (C13: news exactly for
+    strictly newer or unknown authors - decided by has_news_for_us, R2), judged on the heads decoded from that report for the
+    document the report names; a report that cannot be decoded, or for a document we do not sync, is dropped"""
+    f = ctx.facts
+    b = f.body(OSR + "::{closure#0}")
+    ctx.touch(b)
+    for syncing in (1, 0):
+        for decode in (1, 0):
+            for news in ("some", "none", "err"):
+                if (not syncing or not decode) and news != "some":
+                    continue
+                got, log = eval_sync_report(f, syncing, decode, news)
+                dials = [x[1] for x in log if x[0] == "sync_with_peer"]
+                asked = [x[1] for x in log if x[0] == "has_news_for_us"]
+                want = bool(syncing and decode and news == "some")
+                ok = got == "()" and (len(dials) == 1) == want and len(dials) <= 1
+                if dials:
+                    ok = ok and dials[0][:2] == ["report.namespace", "sender"]
+                if syncing and decode:
+                    ok = ok and asked == [["report.namespace", "heads-of(report.heads)"]]
+                ctx.check(ok, rule, OSR, "report[%s,%s,news=%s]" % ("syncing" if syncing else "not-syncing", "decodes" if decode else "garbage", news if (syncing and decode) else "-"),
+                          "returns %s; asked the store %s; requests %s; spec: one request to the sender of the report for the document it names iff the store flags the decoded heads as news" % (got, asked, dials), b.sp)
